@@ -115,7 +115,7 @@ func genCase(t *rapid.T) Case {
 	}
 	nsteps := rapid.IntRange(1, maxSteps).Draw(t, "steps")
 	for len(c.Steps) < nsteps {
-		kind := rapid.SampledFrom([]string{"fault", "fault", "app", "mixed", "mixed", "partition"}).Draw(t, "stepKind")
+		kind := rapid.SampledFrom([]string{"fault", "fault", "app", "mixed", "mixed", "partition", "flap"}).Draw(t, "stepKind")
 		chaos := rapid.SampledFrom([]int{0, 0, 8, maxChaos}).Draw(t, "chaos")
 		switch kind {
 		case "fault":
@@ -138,6 +138,35 @@ func genCase(t *rapid.T) Case {
 				} else {
 					st.Evs = append(st.Evs, genApp(t, m))
 				}
+			}
+			c.Steps = append(c.Steps, st)
+		case "flap":
+			// a link goes silent for about one dead interval -- long enough for the neighbour to
+			// count as dead, possibly not long enough for the next heart-beat to have removed
+			// it -- something else changes in that window, and the link comes back on the same
+			// faces (seeded defect C19-r3-3 lives exactly there)
+			ups := m.upLinks()
+			if len(ups) == 0 {
+				continue
+			}
+			e := rapid.SampledFrom(ups).Draw(t, "flapLink")
+			silent := 100 * rapid.IntRange(285, 360).Draw(t, "silentFor")
+			st := Step{Chaos: 0}
+			st.Evs = append(st.Evs, Ev{K: "rmlink", A: e[0], B: e[1], Gap: silent})
+			m.linkUp[lkey(e[0], e[1])] = false
+			switch rapid.IntRange(0, 2).Draw(t, "midEvent") {
+			case 0:
+				ev := genApp(t, m)
+				ev.Gap = rapid.SampledFrom([]int{0, 40, 300, 900}).Draw(t, "midGap")
+				st.Evs = append(st.Evs, ev)
+			case 1:
+				ev := genFault(t, m)
+				ev.Gap = rapid.SampledFrom([]int{0, 40, 300, 900}).Draw(t, "midGap")
+				st.Evs = append(st.Evs, ev)
+			}
+			if !m.linkUp[lkey(e[0], e[1])] {
+				st.Evs = append(st.Evs, Ev{K: "addlink", A: e[0], B: e[1], NewF: rapid.IntRange(0, 3).Draw(t, "flapNewFace") == 0})
+				m.linkUp[lkey(e[0], e[1])] = true
 			}
 			c.Steps = append(c.Steps, st)
 		case "partition":
